@@ -87,6 +87,10 @@ def check(tier, seed):
             ct = bytes(rng.randrange(256) for _ in range(p['lam'] // 4)) if t < 3 else bytes([0x00 if t == 3 else 0xFF]) * (p['lam'] // 4)
             c = R.sample_in_ball(p, ct)
             cases.append({'line': f"sample_in_ball 0 {p['tau']} {ct.hex()}", 'tag': 'sample_in_ball', 'want': ",".join(str(x) for x in c), 'model': t == 0})
+        # commitment hashes whose SampleInBall consumes unusually many candidate bytes (corpus: the longest rejection runs among 3e6 hashes per set)
+        for e in fam.rare_inputs().get('sib_long', {}).get('cases', {}).get(s, []):
+            ct = bytes.fromhex(e['c_tilde'])
+            cases.append({'line': f"sample_in_ball 0 {p['tau']} {ct.hex()}", 'tag': 'sample_in_ball on a long rejection run', 'want': ",".join(str(x) for x in R.sample_in_ball(p, ct)), 'model': True})
     core.run_and_judge(rep, cases, model_every=0)
     return core.finish(rep, b, 'proof', {
         'rule': 'one case per (set, key, provenance, mode, message, context, rnd); messages of length 0, 1 and around the SHAKE rate edges, contexts of length 0, 1, 254, 255, '
